@@ -47,7 +47,16 @@ def main():
     small = [i for i, (n, name) in enumerate(jobs) if n <= cmax]
     # the translates computed independently (the harness's own translate function) must be what the library expands to
     inv = dict(zip(small, ck.oracle(["lieinv %d %s" % (jobs[i][0], " ".join(G.translates(fam[jobs[i][1]], jobs[i][0]))) for i in small], procs=8)))
-    stats = {"closure_judged": 0, "classifier_vs_table_only": 0}
+    # families proved to be su(2^n) for every n >= n0 (Props/C19.v: C19_su_families): the theorem is about the Coq lists, so they
+    # must be the library's generator lists; from n0 on the theorem, not the enumeration, is the judge
+    proved = {}
+    for item in ck.oracle(["sufamilies"])[0].split(";"):
+        name, n0, gl = item.split(" ")
+        if sorted(fam.get(name, [])) != sorted(gl.split(",")):
+            ck.correspondence_broken("G_LIE[%s] = %s, the proved family is %s" % (name, fam.get(name), gl.split(",")), {"family": name, "library": fam.get(name), "model": gl.split(",")})
+        else:
+            proved[name] = int(n0)
+    stats = {"closure_judged": 0, "classifier_vs_table_only": 0, "judged_by_theorem": 0}
     nt = set()
     for i, ((n, name), r) in enumerate(zip(jobs, cls)):
         tab = tabs[n - 3]["table"].get(name)
@@ -67,6 +76,14 @@ def main():
             why_c = lie.compare_name_with_inv(r["algebra"], inv[i])
             if why_c:
                 ck.fail("classifier:" + key, "classifier on %s n=%d says %s: %s" % (name, n, r["algebra"], why_c), {"family": name, "n": n, "classifier": r["algebra"], "closure_invariants": inv[i], "why": why_c})
+        elif name in proved and n >= proved[name]:
+            stats["judged_by_theorem"] += 1
+            nt.add(key)
+            truth = "su(%d)" % 2 ** n
+            if norm(tab) != norm(truth):
+                ck.fail("table:" + key, "table[%s][n=%d] = %s, proved: %s (C19_su_families)" % (name, n, tab, truth), {"family": name, "n": n, "table": tab, "proved": truth})
+            if norm(r["algebra"]) != norm(truth):
+                ck.fail("classifier:" + key, "classifier on %s n=%d says %s, proved: %s (C19_su_families)" % (name, n, r["algebra"], truth), {"family": name, "n": n, "classifier": r["algebra"], "proved": truth})
         else:
             stats["classifier_vs_table_only"] += 1
             if norm(tab) != norm(r["algebra"]):
@@ -74,7 +91,7 @@ def main():
     ck.cov["evaluations"] = len(jobs)
     ck.cov["distinct_nontrivial"] = len(nt)
     ck.cov["rule"] = ("all %d family names x n=3..%d; for n<=%d table entry and classifier answer are both compared with the invariants of the verified closure of the translates; "
-                      "above that classifier vs table (every residue of n mod 8 and n mod 6 occurs); non-trivial = (family, n) judged against the closure" % (len(fam), nmax, cmax))
+                      "above that: the six families proved su(2^n) for every n (C19_su_families, generator lists compared with G_LIE) are judged by the theorem, the others classifier vs table (every residue of n mod 8 and n mod 6 occurs); non-trivial = (family, n) judged against the closure" % (len(fam), nmax, cmax))
     ck.cov["samples"] = [[n, name, tabs[n - 3]["table"].get(name), r.get("algebra")] for (n, name), r in list(zip(jobs, cls))[::60]][:6]
     ck.cov["distribution"] = stats
     ck.cov["exhaustive"] = True
